@@ -385,6 +385,8 @@ var likeVariants = map[string][]string{
 	"E":  {"c%d <> ''", "c%d<>''"},
 	"X":  {"d%d = 1", "NOT d%d = 1", "(d%d = 1)", "NOT c%d <> ''", "(c%d <> '')", "(d%[1]d = 1 AND c%[1]d <> '')"},
 	"XL": {"NOT a%d NOT LIKE '%%x%%'", "(a%d LIKE '%%x%%')", "(a%[1]d LIKE '%%x%%' AND d%[1]d = 1)", "NOT (a%[1]d NOT LIKE '%%x%%')"},
+	"XP": {"NOT (a%[1]d LIKE '%%x%%' AND c%[1]d <> '')", "NOT (d%[1]d = 1 AND a%[1]d NOT LIKE '%%x%%' AND c%[1]d <> '')",
+		"id IN (SELECT id FROM lk WHERE d%[1]d = 1 AND a%[1]d LIKE '%%x%%' AND c%[1]d <> '')", "(a%[1]d LIKE '%%x%%' AND c%[1]d <> '')"},
 	"XO": {"(a%[1]d LIKE '%%x%%' OR d%[1]d = 1)", "NOT (a%[1]d NOT LIKE '%%x%%' OR c%[1]d = '')", "(a%[1]d LIKE '%%x%%' or a%[1]d LIKE 'ax%%')"},
 }
 
